@@ -8,8 +8,11 @@ package http
 //@ func getSourceName trusted pure stable
 //@ func getKey trusted pure stable
 //@ func hasRequestBody trusted pure stable
-//@ func (*Server).getGateKeeper trusted
+//@ func (*Server).getGateKeeper
 //@   modifies s.GateKeepers, entries(s.GateKeepers)
+//@   before call GateKeeperFactory assert source-is-a-directory-name: arg0 == getSourceName(r) && arg0 != "" && arg0 != "." && arg0 != ".."
+//@   before mapupdate GateKeepers assert registered-under-its-source: arg1 == getSourceName(r) && arg2 == lastret(GateKeeperFactory, 0)
+//@   on return assert answers-the-source-s-gatekeeper: result != nil ==> getSourceName(r) != "" && getSourceName(r) != "." && getSourceName(r) != ".."
 //@ func (*Server).handleError trusted
 //@   modifies nothing
 //@ func (*Server).potentiallySimulateFailure trusted
